@@ -184,6 +184,14 @@ def gen_map_case(rng):
             elif r < 0.82: toks += ['t', str(rng.randint(0, 3)), str(kt), str(k)]
             else: toks += ['c', str(rng.randint(0, 3))]
             continue
+        if rng.random() < 0.12:
+            # key type 6: values whose equality is coarser than identity (payloads of one decade are ==); reads and writes only
+            v = rng.choice([0, 1, 2, 10, 11, 12])
+            if r < 0.45: toks += ['w', '6', str(k), str(v)]
+            elif r < 0.55: toks += ['x', '6', str(k)]
+            elif r < 0.65: toks += ['i', '6', str(k), str(v)]
+            else: toks += ['r', '6', str(k)]
+            continue
         if r < 0.22: toks += ['w', str(kt), str(k), str(rng.randint(0, 9))]
         elif r < 0.30: toks += ['x', str(kt), str(k)]
         elif r < 0.40: toks += ['i', str(kt), str(k), str(rng.randint(0, 9))]
@@ -210,7 +218,8 @@ def gen_map_cases(rng, tier):
               "S 1 1001 4 g 1 1001 G 1 1001 r 1 0 M 1 1001 B 1 1001 D 1 1001".split(),
               # object values: zero-sized values of different types, equal fields in different types; unit-struct keys of different types
               "w 4 0 200 t 0 4 0 w 4 0 300 c 0 r 4 0 w 4 1 5 t 1 4 1 w 4 1 105 c 1".split(),
-              "w 5 0 7 r 5 1 w 5 1 8 r 5 0 r 5 1 t 0 5 0 x 5 1 c 0 r 5 0".split()]       # the type-erased route, then the typed ones
+              "w 5 0 7 r 5 1 w 5 1 8 r 5 0 r 5 1 t 0 5 0 x 5 1 c 0 r 5 0".split(),
+              "w 6 0 1 r 6 0 w 6 0 2 r 6 0 i 6 0 1 r 6 0 w 6 0 12 r 6 0".split()]         # values that are == but not identical: the last one stored is read       # the type-erased route, then the typed ones
     return corpus + [gen_map_case(rng) for _ in range(n)]
 
 
@@ -271,7 +280,7 @@ def map_oracle(toks, lines):
         li += 1
     return None
 
-RULES['C14'] = 'random + corpus sequences of typed state accesses (get/set/get_or_set_default with matching and non-matching state types), map reads, writer insert/remove, direct inserts, three-route stamps and checks against kept stamps, over three typed key types and the two object-valued maps (MapKeyToObj, MapKeyObjToObj: values of different concrete types with equal fields, zero-sized values and unit-struct keys of different types); run on the real TypeToAnyMap/map resource (misc_probe map) and on the extracted model; compared line by line with each other and with a python dictionary specification'
+RULES['C14'] = 'random + corpus sequences of typed state accesses (get/set/get_or_set_default with matching and non-matching state types), map reads, writer insert/remove, direct inserts, three-route stamps and checks against kept stamps, over three typed key types (two of them a pair of different types with the same type name), a key type whose values have an equality coarser than identity, and the two object-valued maps (MapKeyToObj, MapKeyObjToObj: values of different concrete types with equal fields, zero-sized values and unit-struct keys of different types); run on the real TypeToAnyMap/map resource (misc_probe map) and on the extracted model; compared line by line with each other and with a python dictionary specification'
 ASSUMPTIONS['C14'] = ['TypeId equality is modelled by equality of type codes; HashMap iteration order is canonicalised by sorting']
 RULES['C12'] = RULES['C12']
 
@@ -358,13 +367,17 @@ FS_SIZES = [0, 1, 5, 8191, 8192, 8193, 9000, 20000]
 FS_DIRS = [[], ['a'], ['b'], ['a', 'b'], ['ab'], ['ba', 'a'], ['b', 'aa'], ['x', 'y', 'z'], ['xy', 'z'], ['x', 'yz'], ['abc', 'd'], ['ab', 'cd'],
            ['r%E9'], ['r%E8'], ['a', 'r%E9'], ['a', 'r%E8'], ['r%C3%A9']]      # %XX = raw byte: names that are not valid UTF-8 (and one that is)
 
+# modification times (see fs_probe::time): two whole seconds in the past, the same second plus 250 / 500 ms (a change within one
+# second, next to a time without a sub-second part, as tools like tar or touch -d leave it), and one far in the future
+FS_MTIMES = [100, 200, 200, 5000000100250, 5000000100500, 3000000000]
+
 def fs_state(rng):
     r = rng.random()
     if r < 0.12: return ['A']
     # modification times: two in the past and one far in the FUTURE (clock skew, unpacked archives): a stamp is a function of the file, not of the wall clock
-    if r < 0.65: return ['F', str(rng.choice(FS_SIZES)), str(rng.randint(0, 3)), str(rng.choice([100, 200, 200, 3000000000]))]
+    if r < 0.65: return ['F', str(rng.choice(FS_SIZES)), str(rng.randint(0, 3)), str(rng.choice(FS_MTIMES))]
     d = rng.choice(FS_DIRS)
-    return ['D', str(rng.choice([100, 200, 3000000000])), str(len(d))] + d
+    return ['D', str(rng.choice(FS_MTIMES)), str(len(d))] + d
 
 
 def gen_fs_cases(rng, tier):
@@ -376,6 +389,8 @@ def gen_fs_cases(rng, tier):
         "F 9000 0 100 | F 9000 3 100".split(),              # same size and mtime, content differs beyond the 8 KiB buffer
         "F 8193 0 100 | F 8193 1 100".split(),
         "F 10 0 100 | F 10 0 200".split(),
+        "F 10 0 100 | F 10 0 5000000100500".split(), "F 10 0 5000000100500 | F 10 0 100".split(),     # changed within the same second
+        "F 10 0 5000000100250 | F 10 0 5000000100500".split(), "D 100 1 a | D 5000000100500 1 a".split(),
         "F 10 0 3000000000 | F 10 0 3000000000".split(),     # a modification time in the future, nothing changes
         "F 10 0 3000000000 | F 10 0 3000000001".split(), "D 3000000000 1 a | D 3000000000 1 a".split(),
         "A | F 0 0 100".split(), "F 0 0 100 | A".split(), "A | A".split(), "D 100 0 | A".split(),
@@ -384,10 +399,10 @@ def gen_fs_cases(rng, tier):
     for i in range(n):
         s1 = fs_state(rng)
         if rng.random() < 0.35 and s1[0] == 'F':            # a near twin: same size, other variant or other mtime
-            s2 = ['F', s1[1], str(rng.randint(0, 3)), rng.choice([s1[3], '100', '200'])]
+            s2 = ['F', s1[1], str(rng.randint(0, 3)), rng.choice([s1[3], '100', '200', '5000000100500', '5000000100250'])]
         elif rng.random() < 0.3 and s1[0] == 'D':
             d = rng.choice(FS_DIRS)
-            s2 = ['D', rng.choice([s1[1], '100', '200']), str(len(d))] + d
+            s2 = ['D', rng.choice([s1[1], '100', '200', '5000000100500']), str(len(d))] + d
         else:
             s2 = fs_state(rng)
         cases.append(s1 + ['|'] + s2)
